@@ -133,7 +133,98 @@ func (c15) ID() string { return "C15" }
 
 func (c15) Plan(tier string) []fw.Unit {
 	us := planEnum("C15", tier, 1, 32)
+	for sh := 0; sh < 8; sh++ {
+		us = append(us, fw.Unit{Check: "C15", Kind: "within", Tier: tier, Spec: fw.Spec(enumSpec{Shard: sh, Shards: 8})})
+	}
 	return append(us, fw.Unit{Check: "C15", Kind: "key-pairs", Tier: tier, Spec: fw.Spec(enumSpec{})})
+}
+
+// c15Within: WITHIN '2s' over events one second apart (a match spans at most three rows): every pattern x the
+// first two DEFINE templates x SKIP PAST LAST ROW / TO NEXT ROW x all value streams; the reference admits a run
+// only if last.ts - first.ts <= WITHIN and takes the longest admitted run per start.
+func c15Within(u fw.Unit) fw.Result {
+	sp := parseEnum(u)
+	a := newAcc("C15", "cep-within")
+	pats := c15Patterns()
+	defs := c15Defines()
+	maxL := 5
+	if u.Tier == "thorough" {
+		maxL = 6
+	}
+	base := sched.Base.UnixMilli() + 3600*1000 // one hour ahead of the virtual clock: the wall-clock sweeper never applies
+	ci := 0
+	for _, p := range pats {
+		for di := 0; di < 2 && di < len(defs); di++ {
+			for _, skip := range []string{ref.SkipPastLast, ref.SkipNextRow} {
+				ci++
+				if ci%sp.Shards != sp.Shard {
+					continue
+				}
+				d := defs[di]
+				sql := strings.Replace(c15SQL(p, d, skip, false), "PATTERN ("+p.String()+")", "PATTERN ("+p.String()+") WITHIN '2s'", 1)
+				rejected := false
+				for L := 1; L <= maxL && !rejected; L++ {
+					sequences(L, 3, func(vals []int) {
+						if rejected {
+							return
+						}
+						vals = append([]int(nil), vals...)
+						ev := c15Events(vals, "a", 0)
+						for i := range ev {
+							ev[i].TS = base + int64(i+1)*1000
+						}
+						want, defined := ref.ExpectedMatchesWithin(p, d.Fn, ev, skip, 2000)
+						r := detExec(sql, detOpts{Eager: true, Horizon: 50 * vtime.Millisecond}, func(e *Env) {
+							for _, x := range ev {
+								e.Emit(Row{"k": "a", "id": x.ID, "ts": x.TS, "v": x.V})
+							}
+						})
+						a.r.Evaluations++
+						a.r.Transitions += int64(r.Steps)
+						cs := map[string]any{"sql": sql, "values": ev}
+						if r.ExecErr != "" {
+							a.fail(fmt.Sprintf("C15|rejected|within|pattern=%s", p.String()), "statement rejected: "+r.ExecErr, cs, nil, nil)
+							rejected = true
+							return
+						}
+						if r.Status != sched.StatusOK {
+							a.fail("C15|abort", r.Status.String()+" "+firstLine(r.Panic), cs, nil, nil)
+							return
+						}
+						if !defined {
+							a.r.Skipped++
+							return
+						}
+						a.r.States++
+						if len(want) > 0 {
+							a.r.Nontrivial++
+						}
+						var got []c15Obs
+						for _, b := range r.Batches {
+							for _, row := range b {
+								pk, _ := row["pk"].(string)
+								got = append(got, c15Obs{toInt(row["mn"]), toInt(row["f"]), toInt(row["l"]), pk})
+							}
+						}
+						wantObs := c15ExpectedObs(want, ev, "a")
+						a.outcome(fmt.Sprint(got))
+						if fmt.Sprint(got) != fmt.Sprint(wantObs) {
+							kind := "wrong-match"
+							if len(got) < len(wantObs) {
+								kind = "match-omitted"
+							} else if len(got) > len(wantObs) {
+								kind = "extra-match"
+							}
+							a.fail(fmt.Sprintf("C15|within|%s|pattern=%s|define=%s|skip=%s", kind, p.String(), d.Name, skip),
+								fmt.Sprintf("%s over v=%v (one second apart): reported (mn,first,last) %v, reference %v", sql, vals1(ev), got, wantObs), cs, wantObs, got)
+						}
+					})
+				}
+			}
+		}
+	}
+	a.sample(map[string]any{"within": "2s", "event_spacing": "1s", "max_len": maxL})
+	return a.result()
 }
 
 // c15KeyPairs: PARTITION BY isolates every pair of distinct key tuples. Rows t1(v=1) t2(v=1) t1(v=2) t2(v=2)
@@ -205,6 +296,9 @@ func c15ExpectedObs(ms []ref.MRMatch, ev []ref.MREvent, key string) []c15Obs {
 func (c15) Run(u fw.Unit) fw.Result {
 	if u.Kind == "key-pairs" {
 		return c15KeyPairs()
+	}
+	if u.Kind == "within" {
+		return c15Within(u)
 	}
 	sp := parseEnum(u)
 	a := newAcc("C15", "cep")
@@ -379,7 +473,7 @@ func reverseInts(a []int) []int {
 func (c15) Describe(tier string) fw.Description {
 	return fw.Description{
 		Level: "model_checking",
-		Rule: "24 patterns over <= 4 variables (sequence, alternation, ?, *, +, {n}, {n,m}, groups, PERMUTE) x 4 DEFINE templates (constants, PREV, overlapping conditions, FIRST()/COUNT() aggregates; undefined variable always true) x every AFTER MATCH SKIP mode (PAST LAST ROW, TO NEXT ROW, TO FIRST B, TO LAST B, TO B) x all event streams of length 1..L over v in {1,2,3}; executed on the real engine (Emit, flush at Stop) and compared with a brute-force reference (all valid (start,end,labeling) by backtracking; leftmost start, longest end, SKIP rule, MATCH_NUMBER 1,2,..; FIRST(id)/LAST(id)); every 4th stream also with ALL ROWS PER MATCH (CLASSIFIER() must be one of the valid labelings), every 6th also with a second interleaved partition (each partition must report what it reports alone); non-trivial = at least one expected match",
+		Rule: "(WITHIN: every pattern x 2 DEFINE templates x 2 SKIP modes with WITHIN 2s over events one second apart, reference = longest run per start whose span fits; partition isolation: pairwise search over typed two-column partition keys) 24 patterns over <= 4 variables (sequence, alternation, ?, *, +, {n}, {n,m}, groups, PERMUTE) x 4 DEFINE templates (constants, PREV, overlapping conditions, FIRST()/COUNT() aggregates; undefined variable always true) x every AFTER MATCH SKIP mode (PAST LAST ROW, TO NEXT ROW, TO FIRST B, TO LAST B, TO B) x all event streams of length 1..L over v in {1,2,3}; executed on the real engine (Emit, flush at Stop) and compared with a brute-force reference (all valid (start,end,labeling) by backtracking; leftmost start, longest end, SKIP rule, MATCH_NUMBER 1,2,..; FIRST(id)/LAST(id)); every 4th stream also with ALL ROWS PER MATCH (CLASSIFIER() must be one of the valid labelings), every 6th also with a second interleaved partition (each partition must report what it reports alone); non-trivial = at least one expected match",
 		Bounds:      map[string]any{"max_len": map[string]int{"quick": 5, "thorough": 7}, "values": []int{1, 2, 3}, "patterns": 24},
 		Assumptions: []string{"SKIP TO FIRST/LAST X cases where the target is ambiguous among valid labelings or equals the match start are skipped and counted", "WITHIN and the memory guards are not exercised (the property excludes the guarded regime)", "PREV navigates the match so far (property text)"},
 	}
